@@ -120,7 +120,60 @@ def showVerdict : Verdict → String
   | .prm => "prm"
   | .escapes e => "escapes " ++ errName e
 
+/-- `key:value;…` rows -/
+def rows (s : String) : List (String × String) :=
+  (splitNE ";" s).filterMap fun item =>
+    match item.splitOn ":" with
+    | [k, v] => some (k, v)
+    | _ => none
+
+def lookupRow (rs : List (String × String)) (k : Nat) : Option String :=
+  (rs.find? (·.1 == toString k)).map (·.2)
+
+/-- `t` text, `z` empty text, `!Class` raises -/
+def parseDecodeCell (s : String) : Except Err PStr :=
+  if s == "t" then .ok [120] else if s == "z" then .ok []
+  else .error (parseErr (s.drop 1).toString)
+
+/-- UnicodeDammit over raising primitives: candidates (ids or `!Class` where the generator raises), spellings per name,
+    `codecs.lookup` per spelling, codec id per spelling, fallback codec per name, decode table, `ascii` names, the log call -/
+def dammitEOp (code : Code) (cands spell look canon lowered table ascii log : String) : String :=
+  let spellR := rows spell
+  let lookR := rows look
+  let canonR := rows canon
+  let lowR := rows lowered
+  let tabR := (splitNE ";" table).filterMap fun item =>
+    match item.splitOn ":" with
+    | [c, a, b] => c.toNat?.map fun n => (n, a, b)
+    | _ => none
+  let asciiIds := cps ascii
+  let P : Prims Unit :=
+    { Prims.quiet with
+      cands := (splitNE "," cands).map fun t => if t.startsWith "!" then .error (parseErr (t.drop 1).toString) else .ok t.toNat!
+      spellings := fun e => match lookupRow spellR e with
+        | some v => natList "." v
+        | none => []
+      lookup := fun sp => match lookupRow lookR sp with
+        | some "ok" => .ok ()
+        | some v => .error (parseErr (v.drop 1).toString)
+        | none => .error .lookupError
+      canon := fun sp => ((lookupRow canonR sp).bind String.toNat?).getD 0
+      lowered := fun e => (lookupRow lowR e).bind String.toNat?
+      decode := fun c repl => match tabR.find? (·.1 == c) with
+        | some (_, a, b) => parseDecodeCell (if repl then b else a)
+        | none => .error .lookupError
+      isAscii := fun e => asciiIds.contains e
+      logWarning := if log == "ok" then .ok () else .error (parseErr (log.drop 1).toString) }
+  match dammitE code P with
+  | .error c => "escapes " ++ errName c
+  | .ok r =>
+    match r.unicodeMarkup with
+    | none => s!"none repl={bit r.containsReplacement}"
+    | some t => s!"some enc={r.originalEncoding.getD 0} repl={bit r.containsReplacement} empty={bit t.isEmpty}"
+
 def handle : List String → String
+  | ["dammite", code, cands, spell, look, canon, lowered, table, ascii, log] =>
+    dammitEOp (parseCode code) cands spell look canon lowered table ascii log
   | ["inject", code, pt, cls] =>
     match parsePoint pt with
     | some p => showVerdict (predict (parseCode code) p (parseErr cls))
